@@ -72,7 +72,7 @@ class Stats:
                     self.classes[k] += 1
             else:
                 self.classes[klass] += 1
-        if sample is not None and len(self.samples) < self.MAX_SAMPLES:
+        if sample is not None and len(self.samples) < self.MAX_SAMPLES and (nontrivial or not self.samples):
             self.samples.append(sample)
 
     def klass(self, *names):
